@@ -179,10 +179,15 @@ def oracle(script, impl, stderr="", faulted=()):
             for c, s in ln.conns.items():
                 if s["L"] and s["sock"] == "closed":
                     bad.append(("%s closed but not reaped by the event loop (op %r)" % (c, op), c))
+        if t[0] in ("closepeer", "resetpeer") and prev is not None and len(t) > 1 and t[1] in prev and t[1] not in faulted:
+            was, now = prev[t[1]], ln.conns.get(t[1])
+            if was["L"] and was["hold"] == "h0" and now is not None and now["L"]:
+                bad.append(("the peer of %s has gone and the event loop has come to rest, but the client is still listed: "
+                            "its disconnect is not noticed (op %r)" % (t[1], op), t[1]))
         if t[0] == "shutdown" and nlisted:
             bad.append(("%d client(s) still listed after rfbShutdownServer" % nlisted, None))
         # isolation inside the run: an op aimed at one connection leaves the others' records alone
-        if prev is not None and (t[0] in MSG_OPS or t[0] in ("conn", "appclose", "start", "refuse")) and len(t) > 1:
+        if prev is not None and (t[0] in MSG_OPS or t[0] in ("conn", "hconn", "appclose", "start", "refuse")) and len(t) > 1:
             for c, s in ln.conns.items():
                 if c == t[1] or c not in prev: continue
                 # a scaled screen allocated for somebody else is linked right behind the main screen:
@@ -358,7 +363,7 @@ class Gen:
 
     def __init__(self, rng, variant, faulty=False):
         self.rng, self.v, self.faulty = rng, variant, faulty
-        self.lines, self.c, self.pw = [], [], False
+        self.lines, self.c, self.pw, self.httpdown = [], [], False, False
 
     def emit(self, s):
         self.lines.append(s)
@@ -371,6 +376,8 @@ class Gen:
         s = "conn c%d hook=%s" % (i, hook)
         if ws: s += " ws=%d" % ws
         if nb: s += " nb=1"
+        if not ws and not nb and not self.httpdown and self.rng.random() < 0.15:
+            s = "hconn c%d hook=%s%s" % (i, hook, " via=get" if self.rng.random() < 0.5 else "")
         self.emit(s)
         return i
 
@@ -462,7 +469,7 @@ class Gen:
             elif x < 0.95 and len(self.c) >= 2:
                 a, b = r.sample(range(len(self.c)), 2); self.emit("gonekick c%d c%d" % (a, b))
             elif x < 0.96:
-                self.emit("shutdown0")
+                self.emit("shutdown0"); self.httpdown = True
             else:
                 self.emit("pump")
         for i in range(len(self.c)):
@@ -555,6 +562,16 @@ def scenario_scripts(variant):
                            "req c1", "extdrop c1", "extdrop c1", "extadd c1", "conn c2 hook=accept", "ver c2", "extdrop c2",
                            "closepeer c1"] + E
     S["ext-toggle-rev"] = ["ext rev"] + S["ext-toggle"][1:]     # the node with data is not the list head
+    # connections that come in through the HTTP server's proxy support (CONNECT / GET /proxied.connection):
+    # every hook decision, hold+refuse, a full life, and every early exit through the fault enumeration
+    S["http-proxy"] = W + ["hconn c1 hook=accept", "ver c1", "sec c1", "init c1 1", "enc c1 zlib", "req c1",
+                           "hconn c2 hook=refuse", "hconn c3 hook=refuse via=get", "hconn c4 hook=hold via=get", "refuse c4",
+                           "hconn c5 hook=hold", "ver c5", "start c5", "pump", "closepeer c5", "out c1", "closepeer c1",
+                           "req c0", "out c0", "shutdown", "cleanup", "end"]
+    # a held client, a later client (higher descriptor) that goes away, then the held one is started:
+    # it must be served and its own disconnect must be noticed
+    S["hold-start-after-close"] = ["conn c0 hook=hold", "ver c0", "conn c1 hook=accept", "ver c1", "closepeer c1", "start c0", "pump",
+                                   "sec c0", "init c0 1", "req c0", "out c0", "closepeer c0", "shutdown", "cleanup", "end"]
     S["handshake"] = ["conn c0 hook=accept", "ver c0", "sec c0", "init c0 1", "req c0", "shutdown", "cleanup", "end"]
     S["handshake-auth"] = ["pw", "conn c0 hook=accept", "ver c0", "sec c0", "auth c0 ok", "init c0 1", "conn c1 hook=accept", "ver c1",
                            "sec c1", "auth c1 bad", "conn c2 hook=accept", "ver c2", "sec c2", "partial c2", "conn c3 hook=accept",
